@@ -966,3 +966,113 @@ Module DocExamples.
       (bs "q.a.test") qA = answer "" [{| ip_is4 := true; ip_val := 16843009 |}].
   Proof. vm_compute. reflexivity. Qed.
 End DocExamples.
+
+(** * The response side *)
+
+Section RespondProofs.
+  Variable sort : list entry -> list entry.
+  Hypothesis sort_perm : forall l, Permutation (sort l) l.
+  Variable upstream : bytes -> N -> N * list rr.
+
+  Theorem respond_terminates en tbl qname qt : respond sort upstream en tbl qname qt <> None.
+  Proof.
+    unfold respond. destruct (check_host sort en tbl qname qt) as [r|] eqn:C.
+    - destruct (r_reason r); [destruct (upstream qname qt); discriminate|].
+      destruct (_ && _); [destruct (upstream (r_canon r) qt)|]; discriminate.
+    - exfalso. revert C. apply check_host_terminates; auto.
+  Qed.
+
+  (** A covered name without a value of the requested type: empty NOERROR
+      answer, the upstream is not asked. *)
+  Theorem respond_matched_without_value tbl qname qt :
+    qname <> [] ->
+    (exists e, In e tbl /\ matches_host e (to_lower qname) = true) ->
+    (forall e, In e tbl -> matches_host e (to_lower qname) = true -> match_qtype e qt = false) ->
+    respond sort upstream true tbl qname qt =
+      Some {| rp_qname := qname; rp_rcode := 0; rp_answer := []; rp_upstream := [] |}.
+  Proof.
+    intros H M N. unfold respond.
+    rewrite (check_host_matched_without_value sort tbl qname qt H M N). cbn.
+    destruct (qt =? qA); [reflexivity|]. destruct (qt =? qAAAA); reflexivity.
+  Qed.
+
+  (** A CNAME without table addresses: the upstream is asked once, for the
+      canonical name; the delivered message has the original question and
+      the CNAME in front of the upstream's answer. *)
+  Theorem respond_cname_via_upstream en tbl qname qt r :
+    check_host sort en tbl qname qt = Some r ->
+    r_reason r = Rewritten -> r_canon r <> [] -> r_ips r = [] ->
+    respond sort upstream en tbl qname qt =
+      Some {| rp_qname := qname; rp_rcode := fst (upstream (r_canon r) qt);
+              rp_answer := RR_CNAME qname (r_canon r) :: snd (upstream (r_canon r) qt);
+              rp_upstream := [(r_canon r, qt)] |}.
+  Proof.
+    intros C R Cn I. unfold respond. rewrite C, R, I.
+    destruct (r_canon r); [congruence|]. cbn. destruct (upstream _ qt). reflexivity.
+  Qed.
+
+  (** Addresses answered without asking the upstream come from the table. *)
+  Theorem respond_local_addresses en tbl qname qt p owner v :
+    respond sort upstream en tbl qname qt = Some p -> rp_upstream p = [] ->
+    In (RR_A owner v) (rp_answer p) \/ In (RR_AAAA owner v) (rp_answer p) ->
+    exists i r, check_host sort en tbl qname qt = Some r /\ In i (r_ips r) /\ ip_val i = v.
+  Proof.
+    unfold respond. destruct (check_host sort en tbl qname qt) as [r|]; [|discriminate].
+    destruct (r_reason r); [destruct (upstream qname qt); intros [= <-]; discriminate|].
+    destruct (_ && _); [destruct (upstream (r_canon r) qt); intros [= <-]; discriminate|].
+    intros [= <-] _. cbn [rp_answer]. intros H.
+    assert (K : In (RR_A owner v) (if qt =? qA then answers_v4 (if is_nil (r_canon r) then qname else r_canon r) (r_ips r)
+                 else if qt =? qAAAA then answers_v6 (if is_nil (r_canon r) then qname else r_canon r) (r_ips r) else []) \/
+                In (RR_AAAA owner v) (if qt =? qA then answers_v4 (if is_nil (r_canon r) then qname else r_canon r) (r_ips r)
+                 else if qt =? qAAAA then answers_v6 (if is_nil (r_canon r) then qname else r_canon r) (r_ips r) else [])).
+    { destruct H as [H|H]; apply in_app_or in H as [H|H]; auto;
+        destruct (is_nil (r_canon r)); cbn in H; try tauto; destruct H as [H|[]]; discriminate. }
+    clear H. unfold answers_v4, answers_v6 in K.
+    destruct (qt =? qA).
+    - destruct (forallb ip_is4 (r_ips r)); [|cbn in K; tauto].
+      destruct K as [K|K]; apply in_map_iff in K as (i & E & Hi); [|discriminate].
+      injection E as _ <-. eauto.
+    - destruct (qt =? qAAAA); [|cbn in K; tauto].
+      destruct K as [K|K]; apply in_map_iff in K as (i & E & Hi); [discriminate|].
+      injection E as _ <-. apply filter_In in Hi as [Hi _]. eauto.
+  Qed.
+End RespondProofs.
+
+Module RespondExamples.
+  Import DocExamples.
+  Local Open Scope string_scope.
+  Definition up (name : bytes) (qt : N) : N * list rr :=
+    if N.eqb qt qA then (0, [RR_A name 67305985]) else (0, []).       (* 4.3.2.1 *)
+
+  (** "Example: CNAME record": the canonical name is resolved upstream. *)
+  Example cname_via_upstream_premises :
+    exists r, check_host isort true t3 (bs "sub.host.com") qA = Some r /\
+              r_reason r = Rewritten /\ r_canon r <> [] /\ r_ips r = [].
+  Proof. eexists. split; [vm_compute; reflexivity|]. vm_compute. repeat split. discriminate. Qed.
+
+  Example doc_cname_response :
+    respond isort up true t3 (bs "sub.host.com") qA =
+      Some {| rp_qname := bs "sub.host.com"; rp_rcode := 0;
+              rp_answer := [RR_CNAME (bs "sub.host.com") (bs "host.com"); RR_A (bs "host.com") 67305985];
+              rp_upstream := [(bs "host.com", qA)] |}.
+  Proof. vm_compute. reflexivity. Qed.
+
+  (** "Example: CNAME+A records", answered locally. *)
+  Example doc_cname_a_response :
+    respond isort up true t4 (bs "sub.host.com") qA =
+      Some {| rp_qname := bs "sub.host.com"; rp_rcode := 0;
+              rp_answer := [RR_CNAME (bs "sub.host.com") (bs "host.com"); RR_A (bs "host.com") 16909060];
+              rp_upstream := [] |}.
+  Proof. vm_compute. reflexivity. Qed.
+
+  (** "Example: A record", AAAA query: empty answer, upstream not asked. *)
+  Example doc_a_response_AAAA :
+    respond isort up true t1 (bs "host.com") qAAAA =
+      Some {| rp_qname := bs "host.com"; rp_rcode := 0; rp_answer := []; rp_upstream := [] |}.
+  Proof. vm_compute. reflexivity. Qed.
+
+  Example local_addresses_premises :
+    exists p, respond isort up true t4 (bs "sub.host.com") qA = Some p /\ rp_upstream p = [] /\
+              In (RR_A (bs "host.com") 16909060) (rp_answer p).
+  Proof. eexists. split; [vm_compute; reflexivity|]. cbn. auto. Qed.
+End RespondExamples.
